@@ -269,5 +269,7 @@ MUTANTS = [
       "            if self._finalize_data:\n                self._render_data.finalize()\n            self._iterator.close()\n            del self._iterator\n", {"R5"}),
     M("late-store-in-iterate", IT, "RenderIterator._iterate", "        self._render_data = render_data\n        self._render_args = render_args\n", "        self._render_args = render_args\n        self._render_data = render_data\n", twin=True),
     M("accept-finalized", IT, "RenderIterator._from_render_data_", "        if render_data.finalized:\n            raise ValueError(\"The render data has been finalized\")\n", "", {"R5"}),
+    M("del-closes-conditionally", IT, "RenderIterator.__del__", "            self.close()\n", "            if self.loop:\n                self.close()\n", {"R3"}),
+    M("data-del-finalizes-conditionally", TY, "RenderData.__del__", "self.finalize()", "self.finalized or self._namespaces.clear()", {"R1"}),
     M("twin-rename-local", RN, "Renderable._init_render_#4", "terminal_size", "term_size", twin=True, count=0),
 ]
